@@ -10,7 +10,7 @@ RULE = ("Engine S histories with many waiting requests of mixed priorities on bo
         "the very instant'): after every call on time-less stores and at the end of every simulated instant on all "
         "stores, no space request is pending while capacity - held - granted-unused-put > 0, and no retrieval request "
         "is pending while available - granted-unused-get > 0 (filter store: obligation on the head request only, when "
-        "#items matching its filter > #granted unused retrievals; belts, put side: only when the belt is empty and no admission is outstanding). "
+        "#items matching its filter > #granted unused retrievals; belts, put side: only when the belt is empty and no admission is outstanding; slotted belts also one slot delay after the last entry when nothing waits at the exit). "
         "Non-trivial: at least one token was granted by a re-trigger (after a put/get/cancel/timer), not inside its "
         "own reserve call.")
 ASSUMPTIONS = ["'at that instant' is judged when all kernel events of the timestamp are processed (DESIGN R2)",
@@ -51,6 +51,13 @@ class WakeupOracle(Oracle):
                 # admission on a loaded belt depends on spacing / stall (C12, C13); an admission that is
                 # granted but not used yet occupies the entrance (items enter one at a time)
                 obliged = False
+                if S.cls in ("SlottedConveyor", "SlottedBeltStore") and gp == 0 and not S.ready() and h.put_time:
+                    # slotted belt with nothing at its exit: the entrance is free again exactly one slot delay after the last
+                    # entry (the store's own timer: the same float addition the kernel makes)
+                    last = max(h.put_time.values())
+                    d = h.subj.spec.get("delay", 1)
+                    if last + d <= h.env.now:
+                        obliged = True
             if obliged and cap - held - gp > 0:
                 self.res.violate((S.cls, "put", h.last_trigger),
                                  "space request pending although capacity=%d held=%d granted_unused_put=%d (%s, t=%s, op#%d)" % (
